@@ -4,11 +4,12 @@ import nodecheck
 PROFILE = dict(outbound=0.4)
 W = nodecheck.weights(stop=2.5, dpa_for_dpr=8, tick=6, accept=4, cer=8, cea=8, conndone=6, request=3, app_answer=3)
 N_QUICK, N_THOROUGH, LENGTH = 60, 1500, 22
+THEMES = (("shutdown", None, 0, None, 0), ("shutdown_deep", 0, 0, None, 0))
 FILES = ["Props/C18.v"]
 
 
 def check(run):
-    return nodecheck.run(run, "C18", FILES, PROFILE, W, N_QUICK, N_THOROUGH, LENGTH)
+    return nodecheck.run(run, "C18", FILES, PROFILE, W, N_QUICK, N_THOROUGH, LENGTH, themes=THEMES)
 
 
 replay = nodecheck.replay_generic
